@@ -7,6 +7,7 @@
  * stop/return-value specification (C06) and debugger transparency of the step (C05).
  * No quantifiers: universal conclusions use the unconstrained ghost indices g_k / g_g.  */
 #include "vm_common.h"
+#include "vm_step_macros.h"
 #ifdef SPEC_CHECKS_OFF
 #pragma CPROVER check push
 #pragma CPROVER check disable "pointer"
@@ -24,42 +25,15 @@ _Bool *g_isroot;
 unsigned long *g_data_n;
 int **g_data_d;
 int g_sel;
+vm_t *g_vm;
 /* pre-state snapshots for counterexample decoding: havocked by the harness, tied by CEX_TIE in requires,
  * so the trace shows the witness state independently of CBMC's heap-object naming (probe 10) */
 int cex_ip, cex_op, cex_p0, cex_p1, cex_p2, cex_stepping;
 unsigned long cex_n, cex_m, cex_d, cex_nsm;
 int cex_t_ds, cex_t_sz, cex_t_rt, cex_t_ra, cex_t_di, cex_u_ds, cex_u_sz, cex_u_rt, cex_u_ra, cex_u_di;
 int cex_w_t0, cex_w_t1, cex_w_t2, cex_w_u1;
-#define INR(a, m) ((long)(a) >= 0 && (long)(a) < (long)(m))
-#define REQ_CEX_TIE(p)                                                                    \
-  __CPROVER_requires(cex_ip == IP(p) && cex_op == OPC(p, IP(p)) && cex_p0 == PAR(p, IP(p), 0) &&        \
-                     cex_p1 == PAR(p, IP(p), 1) && cex_p2 == PAR(p, IP(p), 2) && cex_stepping == STEPPING(p) && \
-                     cex_n == N(p) && cex_m == M(p) && cex_d == D(p) && cex_nsm == NSM(p))  \
-  __CPROVER_requires(D(p) < 1 || (cex_t_ds == TOP(p).data_start && cex_t_sz == TOP(p).seg_size &&       \
-                                  cex_t_rt == TOP(p).ret_target && cex_t_ra == TOP(p).ret_addr &&       \
-                                  cex_t_di == TOP(p).debug_info))                          \
-  __CPROVER_requires(D(p) < 1 || !INR((long)cex_t_ds + cex_p0, M(p)) || cex_w_t0 == DATA(p)[(long)cex_t_ds + cex_p0]) \
-  __CPROVER_requires(D(p) < 1 || !INR((long)cex_t_ds + cex_p1, M(p)) || cex_w_t1 == DATA(p)[(long)cex_t_ds + cex_p1]) \
-  __CPROVER_requires(D(p) < 1 || !INR((long)cex_t_ds + cex_p2, M(p)) || cex_w_t2 == DATA(p)[(long)cex_t_ds + cex_p2]) \
-  __CPROVER_requires(D(p) < 2 || (cex_u_ds == TOP1(p).data_start && cex_u_sz == TOP1(p).seg_size &&     \
-                                  cex_u_rt == TOP1(p).ret_target && cex_u_ra == TOP1(p).ret_addr &&     \
-                                  cex_u_di == TOP1(p).debug_info))                         \
-  __CPROVER_requires(D(p) < 2 || !INR((long)cex_u_ds + cex_p1, M(p)) || cex_w_u1 == DATA(p)[(long)cex_u_ds + cex_p1])
 
-#define OLD(e) __CPROVER_old(e)
-#define I0(p) IP(p)
-#define P_(p, j) PAR(p, IP(p), j)
-#define BASE(p) (TOP(p).data_start)
-#define CELL(p, r) (DATA(p)[BASE(p) + (r)])
 
-#define TIE(p) (g_data_n == &V(p)->data._n && g_data_d == &V(p)->data._d)
-#define REQ_STEP(p, OPX)                                                                  \
-  REQ_VM_SHAPE(p)                                                                         \
-  __CPROVER_requires(OPC(p, IP(p)) == (OPX))                                              \
-  REQ_INV(p)                                                                              \
-  __CPROVER_requires(TIE(p))                                                              \
-  REQ_CEX_TIE(p)
-#define NONROOT(p) (IP(p) >= 1)
 
 /* -------------------------------------------------------------- POTENTIAL_BREAK / BREAK / HALT */
 _Bool c_step_POTENTIAL_BREAK(void *p)
@@ -91,9 +65,6 @@ __CPROVER_ensures(POST_FR(p)) /*@C19,C03*/
 __CPROVER_ensures(NAT_G(p)) /*@C20,C03*/;
 
 /* -------------------------------------------------------------- ADD_CONST */
-#define ADD_T(p) P_(p, PI_add_target)
-#define ADD_S(p) P_(p, PI_add_source)
-#define ADD_C(p) P_(p, PI_add_constant)
 _Bool c_step_ADD_CONST(void *p)
 REQ_STEP(p, OP_ADD_CONST)
 __CPROVER_requires(NONROOT(p) && PLAIN_NEXT(p, IP(p)) && REG_IN(IP(p), ADD_T(p)) && REG_IN(IP(p), ADD_S(p)))
@@ -114,9 +85,6 @@ __CPROVER_ensures(POST_FR(p)) /*@C19,C03*/
 __CPROVER_ensures(NAT_G(p)) /*@C20,C03*/;
 
 /* -------------------------------------------------------------- TEST */
-#define TST_T(p) P_(p, PI_test_target)
-#define TST_A(p) P_(p, PI_test_op1)
-#define TST_B(p) P_(p, PI_test_op2)
 _Bool c_step_TEST(void *p)
 REQ_STEP(p, OP_TEST)
 __CPROVER_requires(NONROOT(p) && PLAIN_NEXT(p, IP(p)) && REG_IN(IP(p), TST_T(p)) && REG_IN(IP(p), TST_A(p)) &&
@@ -130,8 +98,6 @@ __CPROVER_ensures(POST_FR(p)) /*@C19,C03*/
 __CPROVER_ensures(NAT_G(p)) /*@C20,C03*/;
 
 /* -------------------------------------------------------------- CONST */
-#define CST_T(p) P_(p, PI_constant_target)
-#define CST_C(p) P_(p, PI_constant_constant)
 _Bool c_step_CONST(void *p)
 REQ_STEP(p, OP_CONST)
 __CPROVER_requires(NONROOT(p) && PLAIN_NEXT(p, IP(p)) && REG_IN(IP(p), CST_T(p)) && CST_C(p) >= 0)
@@ -144,9 +110,6 @@ __CPROVER_ensures(POST_FR(p)) /*@C19,C03*/
 __CPROVER_ensures(NAT_G(p)) /*@C20,C03*/;
 
 /* -------------------------------------------------------------- JMP / JMPC */
-#define JMP_TGT_OK(p, off)                                                                \
-  ((long)IP(p) + (long)(off) >= 1 && (long)IP(p) + (long)(off) < (long)N(p) &&            \
-   SAME_ROUTINE(IP(p), IP(p) + (off)) && PEND(IP(p) + (off)) == -1)
 _Bool c_step_JMP(void *p)
 REQ_STEP(p, OP_JMP)
 __CPROVER_requires(NONROOT(p) && PEND(IP(p)) == -1 && JMP_TGT_OK(p, P_(p, PI_jmp_offset)))
@@ -157,7 +120,6 @@ __CPROVER_ensures(POST_CUR(p)) /*@C03*/
 __CPROVER_ensures(POST_FR(p)) /*@C19,C03*/
 __CPROVER_ensures(NAT_G(p)) /*@C20,C03*/;
 
-#define JC_S(p) P_(p, PI_jmpc_source)
 _Bool c_step_JMPC(void *p)
 REQ_STEP(p, OP_JMPC)
 __CPROVER_requires(NONROOT(p) && PLAIN_NEXT(p, IP(p)) && JMP_TGT_OK(p, P_(p, PI_jmpc_offset)) &&
@@ -170,16 +132,6 @@ __CPROVER_ensures(POST_FR(p)) /*@C19,C03*/
 __CPROVER_ensures(NAT_G(p)) /*@C20,C03*/;
 
 /* -------------------------------------------------------------- PREPARE_EXEC */
-#define PR_CNT(p) P_(p, PI_prepare_count)
-#define PR_IDX(p) P_(p, PI_prepare_index)
-#define PR_TGT(p) P_(p, PI_prepare_target)
-#define PREPARE_WF(p)                                                                     \
-  (PR_CNT(p) >= 0 && PR_IDX(p) >= 0 && (unsigned long)PR_IDX(p) < NSM(p) &&               \
-   (unsigned long)IP(p) + 1 < N(p) &&                                                     \
-   (IP(p) == 0 ? (FS(1) == PR_CNT(p) && ISROOT(1) && PEND(1) == -1)                       \
-               : (PEND(IP(p)) == -1 && REG_IN(IP(p), PR_TGT(p)) && SAME_ROUTINE(IP(p), IP(p) + 1) && \
-                  PEND(IP(p) + 1) >= 1 && (unsigned long)PEND(IP(p) + 1) < N(p) &&        \
-                  FS(PEND(IP(p) + 1)) == PR_CNT(p))))
 _Bool c_step_PREPARE_EXEC(void *p)
 REQ_STEP(p, OP_PREPARE_EXEC)
 __CPROVER_requires(PREPARE_WF(p))
@@ -200,8 +152,6 @@ __CPROVER_ensures(POST_FR(p)) /*@C19,C03*/
 __CPROVER_ensures(NAT_G(p)) /*@C20,C03*/;
 
 /* -------------------------------------------------------------- ARG */
-#define ARG_T(p) P_(p, PI_arg_target)
-#define ARG_S(p) P_(p, PI_arg_source)
 _Bool c_step_ARG(void *p)
 REQ_STEP(p, OP_ARG)
 __CPROVER_requires(NONROOT(p) && PEND(IP(p)) != -1 && (unsigned long)IP(p) + 1 < N(p) &&
@@ -217,7 +167,6 @@ __CPROVER_ensures(POST_FR(p)) /*@C19,C03*/
 __CPROVER_ensures(NAT_G(p)) /*@C20,C03*/;
 
 /* -------------------------------------------------------------- EXEC */
-#define EX_E(p) P_(p, PI_exec_entry)
 _Bool c_step_EXEC(void *p)
 REQ_STEP(p, OP_EXEC)
 __CPROVER_requires(NONROOT(p) && EX_E(p) >= 1 && (unsigned long)EX_E(p) < N(p) && PEND(IP(p)) == EX_E(p) &&
@@ -232,7 +181,6 @@ __CPROVER_ensures(POST_FR(p)) /*@C19,C03*/
 __CPROVER_ensures(NAT_G(p)) /*@C20,C03*/;
 
 /* -------------------------------------------------------------- RET */
-#define RET_S(p) P_(p, PI_ret_source)
 _Bool c_step_RET(void *p)
 REQ_STEP(p, OP_RET)
 __CPROVER_requires(NONROOT(p) && PEND(IP(p)) == -1 && !ISROOT(IP(p)) && REG_IN(IP(p), RET_S(p)))
@@ -245,6 +193,63 @@ __CPROVER_ensures(D(p) == OLD(D(p)) - 1) /*@C19,C01,C03*/
 __CPROVER_ensures(DATA(p)[OLD(TOP1(p).data_start) + OLD(TOP(p).ret_target)] == OLD(CELL(p, RET_S(p)))) /*@C01,C05*/
 /* C19: returning releases the callee frame */
 __CPROVER_ensures(M(p) == (unsigned long)OLD(TOP(p).data_start)) /*@C19,C01,C03*/
+__CPROVER_ensures(POST_CUR(p)) /*@C03*/
+__CPROVER_ensures(POST_FR(p)) /*@C19,C03*/
+__CPROVER_ensures(NAT_G(p)) /*@C20,C03*/;
+
+/* -------------------------------------------------------------- the general step contract
+ * One contract for all opcodes: WF(ip) is the static typing of the current instruction.  Enforced on the
+ * UNSLICED real function (thorough tier cross-check of the 12 variants) and used as the callee contract
+ * when VM::execute is verified (callee replaced). */
+/* I3 at the word(s) the current instruction reads (instantiate-at-use of "all words are natural") */
+/* T3 for PREPARE */
+
+_Bool c_step_any(void *p)
+REQ_VM_SHAPE(p)
+REQ_INV(p)
+#ifndef AS_CALLEE
+__CPROVER_requires(TIE(p))
+REQ_CEX_TIE(p)
+#endif
+#ifndef AS_CALLEE
+/* one more instance of the universal frame invariant, needed to re-establish it at top-1 after RET; at a call
+ * site it is an instance of the caller's (unstatable) universal invariant and is ASSUMED there (DESIGN.md 3.3) */
+__CPROVER_requires(D(p) < 3 || FRL(p, D(p) - 3))
+#endif
+__CPROVER_requires(WF_IP(p))
+__CPROVER_requires(NAT_READ(p))
+__CPROVER_requires(ALLOC_OK(p))
+__CPROVER_assigns(!IS_OP(p, OP_HALT): IP(p), V(p)->data._n, V(p)->stack._n, __CPROVER_object_whole(DATA(p)), __CPROVER_object_whole(STK(p)))
+/* sizes stay within the allocated capacity (T3: no reallocation is modelled) */
+__CPROVER_ensures(M(p) <= MCAP(p) && D(p) <= DCAP(p)) /*@C03*/
+/* the frame invariant at the instances a caller needs next (top, top-1) */
+__CPROVER_ensures(FRL(p, D(p) - 1) && (D(p) < 2 || FRL(p, D(p) - 2))) /*@C19,C03*/
+__CPROVER_ensures(__CPROVER_return_value == (OLD(OPC(p, IP(p))) == OP_BREAK || OLD(OPC(p, IP(p))) == OP_HALT || (OLD(OPC(p, IP(p))) == OP_POTENTIAL_BREAK && OLD(STEPPING(p))))) /*@C06*/
+__CPROVER_ensures((OLD(OPC(p, IP(p))) != OP_BREAK && OLD(OPC(p, IP(p))) != OP_POTENTIAL_BREAK) || IP(p) == OLD(IP(p)) + 1) /*@C06,C05*/
+__CPROVER_ensures(OLD(OPC(p, IP(p))) != OP_HALT || IP(p) == OLD(IP(p))) /*@C06,C17*/
+__CPROVER_ensures(POST_CUR(p)) /*@C03*/
+__CPROVER_ensures(POST_FR(p)) /*@C19,C03*/
+__CPROVER_ensures(NAT_G(p)) /*@C20,C03*/
+#ifdef AS_CALLEE
+/* instantiate-at-use of the universal hypotheses over the immutable program (DESIGN.md 3.3): the static
+ * typing holds at the next instruction, the words it reads are natural, allocation will succeed (T3). ASSUMED. */
+__CPROVER_ensures(WF_IP(p) && NAT_READ(p) && ALLOC_OK(p))
+#endif
+;
+
+/* -------------------------------------------------------------- VM::execute (callee replaced by c_step_any) */
+void c_execute(void *p)
+REQ_VM_SHAPE(p)
+REQ_INV(p)
+__CPROVER_requires(g_vm == V(p))
+__CPROVER_requires(WF_IP(p))
+__CPROVER_requires(NAT_READ(p))
+__CPROVER_requires(ALLOC_OK(p))
+/* C17: from the end of the program nothing is assigned */
+__CPROVER_assigns(!IS_OP(p, OP_HALT): IP(p), V(p)->data._n, V(p)->stack._n, __CPROVER_object_whole(DATA(p)), __CPROVER_object_whole(STK(p)))
+/* C06: execution stops exactly at a stop: the instruction just passed is BREAK (an enabled site), or any site while
+ * stepping, or the machine stands on HALT; partial correctness (execute need not terminate) */
+__CPROVER_ensures(STOPPED_AT(p)) /*@C06*/
 __CPROVER_ensures(POST_CUR(p)) /*@C03*/
 __CPROVER_ensures(POST_FR(p)) /*@C19,C03*/
 __CPROVER_ensures(NAT_G(p)) /*@C20,C03*/;
@@ -274,5 +279,17 @@ void h_step(void)
   cex_w_t0 = nondet_int(); cex_w_t1 = nondet_int(); cex_w_t2 = nondet_int(); cex_w_u1 = nondet_int();
   g_data_n = nondet_pul(); g_data_d = nondet_ppi();
   w_executeSingle(p);
+  __CPROVER_assert(0, "canary: end of harness reachable (requires satisfiable)");
+}
+void w_execute(void *p);
+vm_t *nondet_vmp(void);
+void h_execute(void)
+{
+  void *p;
+  g_k = nondet_ulong();
+  g_g = nondet_ulong();
+  g_old = nondet_int();
+  g_vm = nondet_vmp();
+  w_execute(p);
   __CPROVER_assert(0, "canary: end of harness reachable (requires satisfiable)");
 }
